@@ -2324,6 +2324,63 @@ theorem opHistory_undo (S : Schema) (htr : compatTransB S = true) (hts : TextLoo
   rw [e', unwind_of_chain S h2 tr'.doc hc, n]
   rfl
 
+/-- pair-alignment is automatic where the new document has no text outside the Basic Multilingual Plane -/
+theorem undoAligned_of_bmp (s : Step) (d' : Node) (hb : bmpDoc d' = true) : s.undoAligned d' := by
+  have ha := fun p => alignedAt_of_bmp d'.kids p hb
+  cases s <;> simp [Step.undoAligned, ha]
+
+/-! Non-vacuity of `opHistory_undo`: on `doc(p("ab"))` (schema `wrapS` above) the history
+    "wrap the paragraph in a quote" meets every hypothesis; the recorded step is the structure-flagged
+    replace-around step of `Transform.wrap`. -/
+section OpExample
+private theorem w_wrapStep : wrapStep wrapS wDoc 1 3 0 [(2, [])] = .ok (.replaceAround 0 4 0 4 wSl 1 true) := by
+  rfl
+
+private theorem w_fwd_struct : wrapS.apply (.replaceAround 0 4 0 4 wSl 1 true) wDoc = .ok wDoc' := by
+  have hv : wrapS.validContent 0 [Node.elem 2 [] [] [Node.elem 1 [] [] [Node.text [97, 98] []]]] = true := by
+    decide
+  have hc1 : contentBetween wDoc 0 0 = some false := by decide
+  have hc2 : contentBetween wDoc 4 4 = some false := by decide
+  simp only [Schema.apply, hc1, hc2, w_slice, w_ins]
+  simp [Schema.fromReplace, Schema.replace, wDoc, wDoc', replaceKids, inRange, depthAt, Slice.wf, spineL,
+    spineR, outer, atLevel, fcut, fappend, hv, Except.map]
+
+private theorem wrapS_loop : TextLoop wrapS := by
+  intro t q q1 h
+  match t, q with
+  | 0, 0 => simp [Schema.dfa, Schema.nodeType, wrapS, wnt, Dfa.matchType, Dfa.edgesOf] at h
+  | 1, 0 =>
+    have : q1 = 0 := by
+      simp [Schema.dfa, Schema.nodeType, wrapS, wnt, Dfa.matchType, Dfa.edgesOf] at h; omega
+    subst this; exact h
+  | 2, 0 => simp [Schema.dfa, Schema.nodeType, wrapS, wnt, Dfa.matchType, Dfa.edgesOf] at h
+  | 3, 0 => simp [Schema.dfa, Schema.nodeType, wrapS, wnt, Dfa.matchType, Dfa.edgesOf] at h
+  | 0, q + 1 => simp [Schema.dfa, Schema.nodeType, wrapS, wnt, Dfa.matchType, Dfa.edgesOf] at h
+  | 1, q + 1 => simp [Schema.dfa, Schema.nodeType, wrapS, wnt, Dfa.matchType, Dfa.edgesOf] at h
+  | 2, q + 1 => simp [Schema.dfa, Schema.nodeType, wrapS, wnt, Dfa.matchType, Dfa.edgesOf] at h
+  | 3, q + 1 => simp [Schema.dfa, Schema.nodeType, wrapS, wnt, Dfa.matchType, Dfa.edgesOf] at h
+  | t + 4, q =>
+    have : (wrapS.dfa (t + 4)) = #[] := by
+      simp [Schema.dfa, Schema.nodeType, wrapS]
+      rfl
+    rw [this] at h
+    simp [Dfa.matchType, Dfa.edgesOf] at h
+
+private def wTr : Tr := (Tr.init wDoc).addStep (.replaceAround 0 4 0 4 wSl 1 true) wDoc'
+
+private theorem w_run : (Tr.init wDoc).runOps wrapS [.wrap 1 3 0 [(2, [])]] = some wTr := by
+  simp only [Tr.runOps, Tr.runOp, Tr.init, w_wrapStep, Tr.built, Tr.step, w_fwd_struct, Except.toOption]
+  rfl
+
+example : wTr.undo wrapS = .ok wDoc := by
+  refine (opHistory_undo wrapS (by decide) wrapS_loop wDoc [.wrap 1 3 0 [(2, [])]] wTr (by decide) ?_ w_run ?_).1
+  · simp [wDoc, Node.kids, fnorm, fnormKids, Node.norm, chainOk]
+  · simp only [OpsAll, Tr.runOp, Tr.init, w_wrapStep, Tr.built, Tr.step, w_fwd_struct,
+      Except.toOption, OpResidual, and_true]
+    refine ⟨⟨_, _, rfl, rfl, by decide, by decide, by decide, by decide⟩, by decide, ?_, trivial⟩
+    exact undoAligned_of_bmp _ _ (by decide)
+end OpExample
+
 /-! Non-vacuity of `family_history_undo`: the one-step history "replace 2 … 3 by `x`" on
     `doc(p("ab"), p("c"))` (`tiny_fwd`, `tiny_inv` above) meets every hypothesis. -/
 section FamilyExample
